@@ -109,4 +109,4 @@ CFG = {'streams': [{'name': 'C20',
                  'once per run on a fixed two-statement conflict (tag phrases_read_off_the_implementation:k/11; pinned wording as fallback); '
                  'the chain is read from the Debug rendering of each Context (the type is private to the crate) and validated by '
                  'printing it back (code 64)'],
- 'extra_props': ['C20disp']}
+ 'extra_props': ['C20disp', 'C20run']}
